@@ -361,15 +361,25 @@ class Sym:
         return None
 
 
-def _keyset_test(t, pname: str) -> Optional[str]:
-    """`set(c7n_filter.keys()) == {"not"}` (or `c7n_filter.keys() == {"not"}`) -> "not" """
+def _is_keyset(l, pname: str) -> bool:
+    """`set(c7n_filter.keys())` / `c7n_filter.keys()` / `set(c7n_filter)`: the key set of the filter mapping"""
+    if isinstance(l, ast.Call) and isinstance(l.func, ast.Name) and l.func.id == "set" and len(l.args) == 1 and not l.keywords:
+        l = l.args[0]
+        if isinstance(l, ast.Name) and l.id == pname:
+            return True
+    return (isinstance(l, ast.Call) and isinstance(l.func, ast.Attribute) and l.func.attr == "keys" and not l.args
+            and not l.keywords and isinstance(l.func.value, ast.Name) and l.func.value.id == pname)
+
+
+def _keyset_test(t, pname: str, aliases=()) -> Optional[str]:
+    """`set(c7n_filter.keys()) == {"not"}` (or `c7n_filter.keys() == {"not"}`, or a local bound to the key set just before
+    the dispatch, or the operands swapped) -> "not" """
     if not (isinstance(t, ast.Compare) and len(t.ops) == 1 and isinstance(t.ops[0], ast.Eq)):
         return None
     l, r = t.left, t.comparators[0]
-    if isinstance(l, ast.Call) and isinstance(l.func, ast.Name) and l.func.id == "set" and len(l.args) == 1:
-        l = l.args[0]
-    if not (isinstance(l, ast.Call) and isinstance(l.func, ast.Attribute) and l.func.attr == "keys"
-            and isinstance(l.func.value, ast.Name) and l.func.value.id == pname):
+    if isinstance(l, ast.Set):
+        l, r = r, l
+    if not (_is_keyset(l, pname) or (isinstance(l, ast.Name) and l.id in aliases)):
         return None
     if isinstance(r, ast.Set) and len(r.elts) == 1 and isinstance(r.elts[0], ast.Constant):
         return r.elts[0].value
@@ -397,17 +407,35 @@ def connector_branches() -> Dict[str, str]:
     sym = Sym({pres: "resource", pfil: "filter", plev: "level"}, cls, m)
     out: Dict[str, str] = {}
 
-    def dispatch(stmts, env):
-        """if/elif chain over isinstance / key-set tests"""
+    def dispatch(stmts, env, aliases=frozenset()):
+        """if/elif chain over isinstance / key-set tests; the key set of the filter may be bound to a local first
+        (`connective = set(c7n_filter.keys())`): such a local is an alias of the key set in the tests of the chain that follows
+        (all tests of an if/elif chain are evaluated before any branch body runs, and every branch returns)"""
         stmts = [s for s in strip_doc(stmts) if not (isinstance(s, ast.AnnAssign) and s.value is None) and not is_logger_call(s)]
+        aliases = set(aliases)
+        while len(stmts) > 1:
+            s0 = stmts[0]
+            tgt = (s0.targets[0] if isinstance(s0, ast.Assign) and len(s0.targets) == 1 else
+                   s0.target if isinstance(s0, ast.AnnAssign) else None)
+            if (isinstance(tgt, ast.Name) and tgt.id not in (pres, pfil, plev) and s0.value is not None
+                    and _is_keyset(s0.value, pfil)):
+                aliases.add(tgt.id)
+                stmts = stmts[1:]
+            else:
+                break
         if len(stmts) != 1 or not isinstance(stmts[0], ast.If):
             raise TranslationError("logical_connector: expected a single if/elif dispatch")
         st = stmts[0]
+        if aliases:
+            # sound only if nothing rebinds the alias or the filter parameter inside the chain
+            for n in ast.walk(st):
+                if isinstance(n, ast.Name) and isinstance(n.ctx, (ast.Store, ast.Del)) and (n.id in aliases or n.id == pfil):
+                    raise TranslationError(f"logical_connector: {n.id} is rebound inside the dispatch")
         while True:
             ty = _isinstance_test(st.test, pfil)
-            ks = _keyset_test(st.test, pfil)
+            ks = _keyset_test(st.test, pfil, aliases)
             if ty == "dict":
-                dispatch(st.body, dict(env))
+                dispatch(st.body, dict(env), aliases)
             elif ty == "list":
                 out["list"] = sym.block(st.body, dict(env)) or _fail("list branch falls through")
             elif ks is not None:
@@ -461,6 +489,31 @@ class _Alpha(ast.NodeTransformer):
         if n.value is None:
             return None
         return self.visit(ast.copy_location(ast.Assign(targets=[n.target], value=n.value), n))
+
+    def visit_Call(self, n):
+        """`s.startswith((a, b), ...)` / `s.endswith((a, b), ...)` read as `s.startswith(a, ...) or s.startswith(b, ...)`
+        (str semantics; the receiver and the position arguments are names / constants, so evaluating them twice is the same)"""
+        n = self.generic_visit(n)
+        if (isinstance(n.func, ast.Attribute) and n.func.attr in ("startswith", "endswith") and n.args and not n.keywords
+                and isinstance(n.args[0], ast.Tuple) and len(n.args[0].elts) >= 2
+                and all(isinstance(x, (ast.Name, ast.Constant)) for x in [n.func.value] + n.args[1:])
+                and all(isinstance(x, ast.Constant) and isinstance(x.value, str) for x in n.args[0].elts)):
+            return ast.BoolOp(op=ast.Or(), values=[
+                ast.Call(func=ast.Attribute(value=n.func.value, attr=n.func.attr, ctx=ast.Load()), args=[x] + n.args[1:], keywords=[])
+                for x in n.args[0].elts])
+        return n
+
+    def visit_BoolOp(self, n):
+        """`a or (b or c)` is `a or b or c` (same value, same evaluation order)"""
+        n = self.generic_visit(n)
+        vals = []
+        for v in n.values:
+            if isinstance(v, ast.BoolOp) and type(v.op) is type(n.op):
+                vals += v.values
+            else:
+                vals.append(v)
+        n.values = vals
+        return n
 
     def visit_Assign(self, n):
         if (len(n.targets) == 1 and isinstance(n.targets[0], ast.Name) and isinstance(n.value, ast.BinOp)
